@@ -17,7 +17,7 @@ import (
 func init() { engines["c19"] = runC19 }
 
 // advertised sets; nil = no pv entry; index 10 = malformed entry
-var c19Sets = [][]uint8{{0}, {1}, {0, 1}, {2}, {0, 2}, {1, 2}, {0, 1, 2}, {1, 0}, {3, 7, 255}, nil, nil}
+var c19Sets = [][]uint8{{0}, {1}, {0, 1}, {2}, {0, 2}, {1, 2}, {0, 1, 2}, {1, 0}, {3, 7, 255}, nil, nil, {0, 1, 64}, {200, 1}, {63, 64, 1}}
 
 const c19Malformed = 10
 
@@ -38,14 +38,14 @@ func genC19(r *prng) *plan {
 	p := &plan{Cfg: map[string]int64{}}
 	idx := int(envInt("VERIF_RUNIDX", int64(r.intn(1<<20))))
 	// first sweep: every ordered pair, real<->puppet (9 x 11) then real<->real (9 x 9)
-	realSets := []int{0, 1, 2, 3, 4, 5, 6, 7, 9}
-	n1 := len(realSets) * 11
+	realSets := []int{0, 1, 2, 3, 4, 5, 6, 7, 9, 8, 11, 12, 13}
+	n1 := len(realSets) * len(c19Sets)
 	n2 := len(realSets) * len(realSets)
 	k := idx % (n1 + n2)
 	if k < n1 {
 		p.Cfg["mode"] = 0
-		p.Cfg["a"] = int64(realSets[k/11])
-		p.Cfg["b"] = int64(k % 11)
+		p.Cfg["a"] = int64(realSets[k/len(c19Sets)])
+		p.Cfg["b"] = int64(k % len(c19Sets))
 	} else {
 		k -= n1
 		p.Cfg["mode"] = 1
@@ -369,6 +369,21 @@ func runC19(seed uint64) {
 			}
 			w.op("find_out -> %d bytes ok (v%d)", len(got), ver)
 			w.probe(fmt.Sprintf("find_out_v%d", ver))
+		}
+	}
+	// the version the node settled on, as it recorded it in the versions cache it was given: the highest
+	// common one whenever there is one, also where no framing exists for it (nothing else shows what was
+	// computed for versions above 1)
+	if known && ok {
+		for _, k := range V.vcache.Keys() {
+			if k.ID() != P.id() {
+				continue
+			}
+			if got, found := V.vcache.Peek(k); found && got != ver {
+				w.violate("C19", "negotiated-version", "V advertises %s, the peer %s: the highest common version is %d, the node recorded %d for this peer", c19Name(ai), c19Name(bi), ver, got)
+			} else if found {
+				w.probe("negotiated_version_recorded")
+			}
 		}
 	}
 	if bi2 := int(p.cfg("b2")); p.cfg("restart") == 1 && bi <= 7 {
